@@ -354,6 +354,13 @@ class KindEngine:
                             f"fastest (interleaved), the layout used everywhere else is [up block | dn block]")
                 return None
             return None
+        # (G, O, O).reshape(norb, -1): a row-major reshape does not move axes -- the leading extent norb is cut out of the
+        # Cholesky index (and whatever follows it), not the orbital axis: a positive witness
+        if len(kb) == 3 and kb[0] == "G" and len(dims) == 2 and self._is_norb(dims[0]) and is_const(strip_wrappers(dims[1]), -1):
+            self.checked_sites += 1
+            self.bad(t, f"reshape(norb, -1) of a tensor with axes {tuple(kb)}: the new leading axis of extent norb is cut out of "
+                        f"the Cholesky index, not an orbital axis (the orbital axis has to be moved to the front first)")
+            return None
         # (G, F:b) -> (G, O:b, O:b)
         if len(kb) == 2 and kb[1].startswith("F") and len(dims) == 3 and is_const(dims[0], -1) and \
                 self._is_norb(dims[1]) and self._is_norb(dims[2]):
